@@ -23,7 +23,7 @@ import zipfile
 from xml.etree import ElementTree as ET
 
 from common import coq_list, coq_str, coq_eval_shards
-from props.c02 import DocGen, coq_results, parse_strings, parse_nums, nstr, with_decls
+from props.c02 import DocGen, coq_results, parse_strings, parse_nums, nstr, with_decls, pick_encoding
 
 PRE = "From S2T Require Import Lib.PyStr C02.Lib C02.Xml C02.Doc C02.OdtModel C02.OdfShared.\n"
 EXTRA_NS = (' xmlns:svg="urn:oasis:names:tc:opendocument:xmlns:svg-compatible:1.0"'
@@ -32,7 +32,8 @@ EXTRA_NS = (' xmlns:svg="urn:oasis:names:tc:opendocument:xmlns:svg-compatible:1.
 PROPS_EXPECTED = ["C02_odf_element_text_is_odt_walk", "C02_odf_paragraph_text_transfers", "C02_odf_paragraph_separated"]
 
 
-def pkg(mimetype: str, body: str, decls: str) -> bytes:
+def pkg(mimetype: str, body: str, decls: str, enc: str = "ascii-refs") -> bytes:
+    from props.c02 import encode_part
     b = io.BytesIO()
     with zipfile.ZipFile(b, "w", zipfile.ZIP_DEFLATED) as z:
         z.writestr("mimetype", mimetype)
@@ -40,8 +41,8 @@ def pkg(mimetype: str, body: str, decls: str) -> bytes:
                    '<?xml version="1.0"?><manifest:manifest xmlns:manifest="urn:oasis:names:tc:opendocument:xmlns:manifest:1.0">'
                    f'<manifest:file-entry manifest:full-path="/" manifest:media-type="{mimetype}"/>'
                    '<manifest:file-entry manifest:full-path="content.xml" manifest:media-type="text/xml"/></manifest:manifest>')
-        z.writestr("content.xml", f'<?xml version="1.0" encoding="UTF-8"?><office:document-content{decls}{EXTRA_NS}>'
-                                  f'<office:body>{body}</office:body></office:document-content>')
+        z.writestr("content.xml", encode_part(f'<office:document-content{decls}{EXTRA_NS}>'
+                                              f'<office:body>{body}</office:body></office:document-content>', enc))
     return b.getvalue()
 
 
@@ -93,7 +94,7 @@ def run_part(ctx):
     n = ctx.n(150, 1500)
     terms = []
     for _ in range(n):
-        g = DocGen(rng, set(), 3)
+        g = DocGen(rng, set(), 3, latin=rng.random() < 0.4)
         terms.append(g.inls(0, False, 5))
     terms[0] = "[IRun [19969]; IWrap KSpan [IRun [19970]; IComment [22017]; IBreak BrLine; IRun [19971]; ITab; IRun [19972]]; IWrap KLink [IRun [19973]; IWrap KSpan [IComment [22018]]]]"
     rows, log = render(ctx, terms)
@@ -133,8 +134,10 @@ def run_part(ctx):
         for j in range(0, len(paras), per_row):
             rows_xml += "<table:table-row>" + "".join(
                 f'<table:table-cell office:value-type="string">{p[0]}</table:table-cell>' for p in paras[j:j + per_row]) + "</table:table-row>"
+        enc_s = pick_encoding(rng)
+        ctx.count("ods-encoding:" + enc_s)
         ods = pkg("application/vnd.oasis.opendocument.spreadsheet",
-                  f'<office:spreadsheet><table:table table:name="SheetA">{rows_xml}</table:table></office:spreadsheet>', decls)
+                  f'<office:spreadsheet><table:table table:name="SheetA">{rows_xml}</table:table></office:spreadsheet>', decls, enc_s)
         want = [w for p in paras for w in p[1]]
         try:
             got = next(mods["ods"].read_ods(io.BytesIO(ods))).get_full_text()
@@ -150,38 +153,83 @@ def run_part(ctx):
             elif got.split() != ["SheetA"] + want:
                 ctx.finding("ods:cell-paragraph-text", "ODS get_full_text(): cell paragraph tokens lost, duplicated, reordered or merged "
                             f"(expected {len(want)} words after the sheet name, got {len(got.split()) - 1})",
-                            {"format": "ods", "cells": [p[0] for p in paras], "expected_words": want, "got": got})
-        # ODP: first half of the paragraphs in text boxes (two per frame), the rest in a table
+                            {"format": "ods", "cells": [p[0] for p in paras], "expected_words": want, "got": got, "encoding": enc_s})
+        # ODP: first half of the paragraphs in text boxes (two per frame; some frames inside draw:g groups, possibly
+        # nested), the rest in a table; speaker notes on the attached notes page (presentation:notes) in a frame with
+        # and/or without presentation:class="notes" (the attribute is optional) — notes are excluded from the full text
         h = max(1, len(paras) // 2)
         boxes, tbl = paras[:h], paras[h:]
-        frames = ""
+        frames, grouped = "", False
         for j in range(0, len(boxes), 2):
-            frames += (f'<draw:frame svg:x="1cm" svg:y="{1 + j}cm" svg:width="5cm" svg:height="1cm"><draw:text-box>' +
-                       "".join(p[0] for p in boxes[j:j + 2]) + "</draw:text-box></draw:frame>")
+            fr = (f'<draw:frame svg:x="1cm" svg:y="{1 + j}cm" svg:width="5cm" svg:height="1cm"><draw:text-box>' +
+                  "".join(p[0] for p in boxes[j:j + 2]) + "</draw:text-box></draw:frame>")
+            g = rng.random()
+            if g < 0.15:
+                fr, grouped = f"<draw:g>{fr}</draw:g>", True
+            elif g < 0.2:
+                fr, grouped = f"<draw:g><draw:g>{fr}</draw:g></draw:g>", True
+            frames += fr
         if tbl:
             frames += ('<draw:frame svg:x="1cm" svg:y="30cm" svg:width="5cm" svg:height="1cm"><table:table><table:table-row>' +
                        "".join(f"<table:table-cell>{p[0]}</table:table-cell>" for p in tbl) +
                        "</table:table-row></table:table></draw:frame>")
+        notes_mode = rng.choice(["none", "classed", "unclassed", "both"])
+        note_chars = [chr(0x4E00 + 5 * 1024 + 700 + k) for k in range(3)]
+        nfr = lambda cls, ch: (f'<draw:frame{cls} svg:x="2cm" svg:y="14cm" svg:width="5cm" svg:height="5cm"><draw:text-box>'
+                               f'<text:p>&#{ord(ch)};</text:p></draw:text-box></draw:frame>')
+        notes_xml, notes_expected = "", []
+        if notes_mode != "none":
+            inner = '<draw:page-thumbnail svg:x="2cm" svg:y="1cm"/>'
+            if notes_mode in ("classed", "both"):
+                inner += nfr(' presentation:class="notes"', note_chars[0]); notes_expected.append(note_chars[0])
+            if notes_mode in ("unclassed", "both"):
+                inner += nfr("", note_chars[1]); notes_expected.append(note_chars[1])
+            notes_xml = f"<presentation:notes>{inner}</presentation:notes>"
+        enc = pick_encoding(rng)
+        ctx.count("odp-encoding:" + enc)
         odp = pkg("application/vnd.oasis.opendocument.presentation",
-                  f'<office:presentation><draw:page draw:name="p1">{frames}</draw:page></office:presentation>', decls)
+                  f'<office:presentation><draw:page draw:name="p1">{frames}{notes_xml}</draw:page></office:presentation>', decls, enc)
         want_b = [w for p in boxes for w in p[1]]
-        ctx.case(("odp", tuple(terms[i] for i in gi)), len(want_b) >= 3, "odp:text-boxes+table")
+        ctx.case(("odp", tuple(terms[i] for i in gi), notes_mode, grouped, enc), len(want_b) >= 3,
+                 "odp:text-boxes+table" + ("+grouped" if grouped else "") + ("+notes-" + notes_mode if notes_mode != "none" else ""))
         try:
             c = next(mods["odp"].read_odp(io.BytesIO(odp)))
             got = c.get_full_text()
             tables = [t.get_table() for t in c.iterate_tables()]
+            got_notes = "".join(c.slides[0].notes) if c.slides else ""
         except Exception as e:  # noqa
-            ctx.finding("odp:raises", f"read_odp raised {type(e).__name__}: {e}", {"format": "odp", "frames": frames})
+            ctx.finding("odp:raises" + ("" if enc in ("ascii-refs", "utf8-raw") else ":" + enc),
+                        f"read_odp raised {type(e).__name__}: {e} (content.xml encoded as {enc})", {"format": "odp", "frames": frames, "encoding": enc})
             continue
         cell_strs = [str(cell) for t in tables for row in t for cell in row]
         leaked = sorted((set(got) | set("".join(cell_strs))) & excl_all)
-        rep = {"format": "odp", "frames": frames, "expected_words": want_b, "got": got, "cells": cell_strs}
-        if leaked:
+        notes_leaked = sorted(set(got) & set(note_chars))
+        rep = {"format": "odp", "frames": frames, "notes": notes_xml, "expected_words": want_b, "got": got, "cells": cell_strs,
+               "encoding": enc}
+        if notes_leaked:
+            ctx.finding("odp:speaker-notes-in-full-text", "ODP get_full_text(): text of the notes page (presentation:notes, frame "
+                        + ("without" if note_chars[1] in notes_leaked else "with") + ' presentation:class="notes") appears in the slide text', rep)
+        elif any(ch not in got_notes for ch in notes_expected):
+            ctx.finding("odp:speaker-notes-not-collected", "ODP: text of a notes-page frame is missing from OdpSlide.notes", rep)
+        elif leaked:
             ctx.finding("odp:annotation-paragraph-leaks", "ODP: the paragraphs of a comment (office:annotation) anchored in a text-box "
                         "or table-cell paragraph appear in get_full_text() / the table cell text", rep)
         elif got.split() != want_b:
-            ctx.finding("odp:text-box-paragraph-text", "ODP get_full_text(): text-box paragraph tokens lost, duplicated, reordered or merged "
-                        f"(expected {len(want_b)} words, got {len(got.split())})", rep)
+            if enc != "ascii-refs":
+                try:
+                    got0 = next(mods["odp"].read_odp(io.BytesIO(pkg("application/vnd.oasis.opendocument.presentation",
+                                f'<office:presentation><draw:page draw:name="p1">{frames}{notes_xml}</draw:page></office:presentation>', decls)))).get_full_text()
+                except Exception:  # noqa
+                    got0 = got
+                if got0 != got:
+                    ctx.finding("odp:part-encoding:" + enc, f"ODP get_full_text() depends on the encoding of content.xml ({enc} vs character references)", rep)
+                    continue
+            if grouped:
+                ctx.finding("odp:grouped-text-box-lost", "ODP get_full_text(): text boxes inside a draw:g group are not extracted "
+                            f"(expected {len(want_b)} words, got {len(got.split())})", rep)
+            else:
+                ctx.finding("odp:text-box-paragraph-text", "ODP get_full_text(): text-box paragraph tokens lost, duplicated, reordered or merged "
+                            f"(expected {len(want_b)} words, got {len(got.split())})", rep)
         elif tbl and (len(cell_strs) != len(tbl) or any(cs.split() != p[1] for cs, p in zip(cell_strs, tbl))):
             ctx.finding("odp:table-cell-text", "ODP iterate_tables(): a cell's paragraph tokens are lost, duplicated, reordered or merged", rep)
     ctx.extra["odf_shared"] = {"paragraphs": len(rows), "ods_odp_documents": len(groups)}
